@@ -1,5 +1,11 @@
 (* The attributes that the small pure methods translated into PureSrc.v read through self. *)
 From Coq Require Import ZArith QArith.
+From FemtoTie Require Import PyPrelude.
+
+(* int (+|-) float, only for the pure groups: in PgmSrc.v `int(num) - 1` must stay an integer subtraction *)
+Global Instance add_ZQ : PyAdd Z Q Q | 10 := fun z q => (inject_Z z + q)%Q.
+Global Instance sub_ZQ : PySub Z Q Q | 10 := fun z q => (inject_Z z - q)%Q.
+
 Record lp_cfg := { lp_speed : Q; lp_cmd_rate_max : Q }.                       (* LaserPath: speed, cmd_rate_max *)
 Record nw_cfg := { nw_adj_scan : Z }.                                         (* NasuWaveguide: adj_scan *)
 Record tc_cfg := { tc_bridge : Q; tc_beam_waist : Q; tc_round_corner : Q;     (* TrenchColumn *)
